@@ -1,6 +1,6 @@
 /* C18 -- separate builders/checkers sharing one keyring, used concurrently.
  * Deviation-bounded stateless search (CHESS idiom): N real threads serialised by engine/sched.c, scheduling
- * points at every allocator call (libjwt + jansson) and every time() call; every interleaving with at most
+ * points at every allocator call (libjwt + jansson, and libjwt's own OPENSSL_malloc/free calls) and every time() call; every interleaving with at most
  * `bound` preemptions is executed and each thread's token and verdicts are compared with its sequential run.
  * A separate free-running pass of the same bodies under ThreadSanitizer looks for unsynchronised accesses. */
 #define _GNU_SOURCE
@@ -68,6 +68,28 @@ static void body(void *arg)
 
 static void obs_free(tobs_t *o) { vf_lfree(o->tok); o->tok = NULL; }
 
+/* A keyring that no thread has used yet: whatever the library builds lazily on first use of a key is built inside the
+ * explored execution, not before it.  `warm` runs one complete body on it first (keys that have been used before). */
+static char *ring_doc[NCFG];
+static void body(void *arg);
+static void fresh_ring(int i, int warm)
+{
+	if (ring[i])
+		jwks_free(ring[i]);
+	ring[i] = jwks_create(ring_doc[i]);
+	if (!ring[i] || jwks_item_count(ring[i]) != 2 || jwks_error_any(ring[i])) {
+		fprintf(stderr, "conc: keyring %s does not load\n", CFG[i].name);
+		exit(2);
+	}
+	if (warm) {
+		tobs_t o = { 0 };
+		o.cfg = i;
+		o.tid = 7;
+		body(&o);
+		vf_lfree(o.tok);
+	}
+}
+
 static void setup(void)
 {
 	vk_oct_bytes(91, K32, 32);
@@ -81,7 +103,7 @@ static void setup(void)
 			b = vk_jwk_text(vk_get(CFG[i].key), 0, NULL, "pub");
 		}
 		snprintf(doc, sizeof doc, "{\"keys\":[%s,%s]}", a, b);
-		ring[i] = jwks_create(doc);
+		ring_doc[i] = strdup(doc);
 		free(a);
 		free(b);
 		char hdr[64];
@@ -118,8 +140,11 @@ typedef struct {
 
 static tobs_t SEQ[NCFG][SCHED_MAXT];
 
+static int warm_ring;
 static void run_schedule(int cfg, int nthr, const int *prefix, int plen, exec_t *x)
 {
+	rc_rng_reseed(515151);
+	fresh_ring(cfg, warm_ring);
 	sched_body_t bodies[SCHED_MAXT];
 	void *args[SCHED_MAXT];
 	for (int t = 0; t < nthr; t++) {
@@ -222,8 +247,12 @@ static pthread_barrier_t bar;
 static void *free_body(void *p)
 {
 	struct frarg *a = p;
-	pthread_barrier_wait(&bar);
 	for (int i = 0; i < a->iters; i++) {
+		/* every second round starts on a keyring nobody has used yet (thread 0 swaps it in between two barriers) */
+		pthread_barrier_wait(&bar);
+		if (a->tid == 0 && i % 2 == 0)
+			fresh_ring(a->cfg, 0);
+		pthread_barrier_wait(&bar);
 		tobs_t o = { 0 };
 		o.cfg = a->cfg;
 		o.tid = a->tid % SCHED_MAXT;
@@ -243,6 +272,7 @@ static void sequential_reference(void)
 			memset(&SEQ[c][t], 0, sizeof SEQ[c][t]);
 			SEQ[c][t].cfg = c;
 			SEQ[c][t].tid = t;
+			fresh_ring(c, 0);
 			rc_rng_reseed(424242);
 			body(&SEQ[c][t]);
 			if (SEQ[c][t].gen_failed || SEQ[c][t].r_own != 0 || SEQ[c][t].r_bad == 0 || SEQ[c][t].r_good != 0) {
@@ -315,6 +345,10 @@ static void enumerate_free_running(int provider)
 static void enumerate(void)
 {
 	int provider = (int)(vf_param & 1);
+	if (vf_param < 8 && !rc_track_alloc()) {
+		fprintf(stderr, "conc: libcrypto allocator seam not available\n");
+		exit(2);
+	}
 	vk_load();
 	vf_now = T0;
 	if (vf_param < 8)
@@ -329,18 +363,21 @@ static void enumerate(void)
 	sequential_reference();
 	vf_alloc_hook = alloc_point;
 	vf_time_hook = time_point;
+	rc_alloc_hook = time_point;
 	for (int c = 0; c < NCFG; c++) {
 		int maxthr = (vf_thorough && c == 0) ? 3 : 2;
 		for (int nthr = 2; nthr <= maxthr; nthr++) {
 			int bound = vf_thorough && nthr == 2 ? 2 : 1;
 			/* roots: which thread starts is a free choice (no thread is running yet).  For every root the execution without
 			 * further deviation defines the top-level branches; every shard recomputes it (deterministic, a few ms). */
-			for (int root = 0; root < nthr; root++) {
+			for (int rw = 0; rw < 2 * nthr; rw++) {
+				int root = rw % nthr;
+				warm_ring = rw / nthr;
 				int rootpfx[1] = { root };
 				exec_t *x0 = malloc(sizeof *x0);
 				run_schedule(c, nthr, rootpfx, 1, x0);
-				if (vf_case("%s [%s] %d threads, thread %d starts: schedule without preemptions (%d scheduling points)", CFG[c].name, lj_provider_name(provider), nthr,
-					    root, x0->n)) {
+				if (vf_case("%s [%s] %d threads on a %s keyring, thread %d starts: schedule without preemptions (%d scheduling points)", CFG[c].name,
+					    lj_provider_name(provider), nthr, warm_ring ? "used" : "fresh", root, x0->n)) {
 					check_exec(c, nthr, x0);
 					/* determinism: the same schedule twice gives the same points and observations */
 					exec_t *x1 = malloc(sizeof *x1);
@@ -357,8 +394,8 @@ static void enumerate(void)
 					if (cost > bound)
 						continue;
 					for (int alt = 1; alt < x0->pts[i].n_enabled; alt++) {
-						if (!vf_case("%s [%s] %d threads, thread %d starts, bound %d: first deviation at point %d (choice %d), then every schedule within the bound",
-							     CFG[c].name, lj_provider_name(provider), nthr, root, bound, i, alt))
+						if (!vf_case("%s [%s] %d threads on a %s keyring, thread %d starts, bound %d: first deviation at point %d (choice %d), then every schedule within the bound",
+							     CFG[c].name, lj_provider_name(provider), nthr, warm_ring ? "used" : "fresh", root, bound, i, alt))
 							continue;
 						int *pfx = malloc(sizeof(int) * (i + 1));
 						memcpy(pfx, x0->ch, sizeof(int) * i);
@@ -382,6 +419,7 @@ static void enumerate(void)
 	}
 	vf_alloc_hook = NULL;
 	vf_time_hook = NULL;
+	rc_alloc_hook = NULL;
 	vf_count("evaluations", n_exec);
 	vf_count("states", n_exec);
 	vf_count("transitions", n_points_total);
